@@ -240,7 +240,30 @@ def c04e(ctx):
         ctx.fail(o, "(program)", "expected the 4 session methods set_input/update/refresh/commit, found %d" % found)
 
 
+def c04f(ctx):
+    """An input session that is dropped without commit() commits itself in Drop — unless it believes it already has.  The
+    flag has to start false and be raised by commit() only, else the dropped session's batch is dropped active (abort) and
+    its writes are lost while the epoch was already advanced."""
+    prog = ctx.prog
+    o = ctx.ob("C04.f", "InputSession/starts-uncommitted", "K5", "InputSession is created with comitted = false and only commit() raises the flag")
+    mk = [a for b in prog.all_bodies(["qbice"]) for a in b.aggregates(r"input_session::InputSession$")]
+    o.sites = len(mk)
+    if not mk:
+        ctx.fail(o, "(program)", "anchor missing: the construction of InputSession")
+    for a in mk:
+        rv = a.node["rv"]
+        by = dict(zip(rv.get("fields") or [], rv["ops"]))
+        c = (by.get("comitted") or {}).get("c") or {}
+        if c.get("s") != "false":
+            ctx.fail(o, a, "a new InputSession is created with comitted = %s: its Drop will not commit it" % (c.get("s") or "a computed value"))
+    for b in prog.all_bodies(["qbice"]):
+        for a in b.assigns(lambda st: any(e.startswith("f:comitted") for e in st["lhs"][1])):
+            if "InputSession::commit" not in b.name:
+                ctx.fail(o, a, "%s writes InputSession.comitted (only commit() may)" % b.name)
+
+
 def run(ctx):
+    ctx.run_clause("C04.f", c04f)
     ctx.run_clause("C04.a", c04a)
     ctx.run_clause("C04.b", c04b)
     ctx.run_clause("C04.c", c04c)
